@@ -93,6 +93,8 @@ def api_main(ctx, kinds=("q", "p", "h")):
     cs += corpora.fam_mut(s, kinds, 6000 if q else 120000)
     cs += corpora.fam_pos256(s, kinds, range(0, 71, 5 if q else 1), stride=3 if q else 1)
     cs += [c for c in corpora.fam_lengths(s, 100) if c[2] in kinds]
+    cs += corpora.fam_long(s, kinds)
+    cs += corpora.fam_pairs(s, kinds, quick=q)
     return cs
 
 
@@ -137,7 +139,9 @@ def extras(ctx, prop):
         cs += corpora.fam_codes()
     if prop in ("C14", "C08", "C10", "C03", "C05", "C17", "C04"):
         kinds = ("q", "p", "h") if prop != "C14" else ("q", "p")
-        cs += corpora.fam_lines(ctx.seed, kinds, depth=2 if q else 3, cfg_stride=1)
+        ls = corpora.fam_lines(ctx.seed, kinds, depth=2 if q else 3, cfg_stride=1)
+        cs += ls
+        cs += corpora.padded(ls, stride=4 if q else 1)
     if prop == "C17":
         r = Rng(ctx.seed).fork("cap")
         for i in range(300 if q else 5000):
@@ -299,7 +303,7 @@ def run_C04(ctx):
 
 # ---------------------------------------------------------------- C01
 def run_C01(ctx):
-    if not need(ctx, ["default", "dbg"]):
+    if not need(ctx, ["default", "dbg", "ovf"]):
         return
     q = ctx.quick
     cases = api_main(ctx) + corpora.fam_chunk(ctx.seed, 1000 if q else 50000)
@@ -320,6 +324,9 @@ def run_C01(ctx):
         for force, be in ((None, "rt1"), (2, "rt2"), (3, "rt3")):
             sub = small if (variant == "default" and force is None) else small[::(5 if q else 2)]
             single_call(ctx, "C01", sub, variant=variant, force=force, mode="guard", model_be=be)
+    # release code with overflow checks: "never overflows arithmetic" where the debug-only guards are gone
+    ovf = [c for c in small if c[2] == "c"] + corpora.fam_chunk_exh(3 if q else 5) + small[::(7 if q else 2)]
+    single_call(ctx, "C01", ovf, variant="ovf", force=None, mode="guard", model_be="rt1")
     big = [c for c in cases if len(c[6]) > 70000]
     if big:
         res = execute("C01-big", big, mode="guard", want_model=False, want_oracle=True)
@@ -514,6 +521,14 @@ def run_C09(ctx):
 
 
 # ---------------------------------------------------------------- C12
+_TCHAR = set(b"!#$%&'*+-.^_`|~") | set(range(48, 58)) | set(range(65, 91)) | set(range(97, 123))
+RFC_CLASS = {
+    0: lambda x: 0x21 <= x <= 0x7e or x >= 0x80,                 # target
+    1: lambda x: x == 9 or 0x20 <= x <= 0x7e or x >= 0x80,       # header value
+    2: lambda x: x in _TCHAR,                                    # header name
+}
+
+
 def run_C12(ctx):
     if not need(ctx, ["default"]):
         return
@@ -565,7 +580,14 @@ def run_C12(ctx):
         ctx.nontrivial.add(c[2:])
         ctx.sample(c, iraw)
         m = res.model.get(cid)
-        if m is None or iraw.strip() == "NA":
+        if iraw.strip() == "NA":
+            continue
+        if c[0] == "S":
+            # the oracle of the property itself: the index of the first byte outside the class
+            want = next((k for k, x in enumerate(c[5]) if not RFC_CLASS[c[3]](x)), len(c[5]))
+            if iraw.strip() != str(want):
+                ctx.fail(c, "scanner stopped at %s, first out-of-class byte is at %d" % (iraw.strip(), want), impl=iraw)
+        if m is None:
             continue
         if c[0] == "S" and c[2] == 0:
             continue          # dispatching backend: compared through the forced ids
@@ -959,10 +981,24 @@ def run_C18(ctx):
     q = ctx.quick
     r = Rng(ctx.seed).fork("hist")
     hs = []
-    for i in range(4000 if q else 150000):
+    for i in range(6000 if q else 150000):
         kind = "qp"[i % 2]
         cap = r.choice([0, 1, 2, 3, 4, 8])
         calls = []
+        if i % 3 == 2:
+            # the documented loop: ONE buffer, re-parsed as it grows (the harness hands every prefix out as
+            # a slice of the same allocation); the configuration may change between the calls
+            base = gen.GRAM[kind](r, lenient=1)
+            if r.chance(1, 4):
+                base = gen.mutate(r, base)
+            n = 2 + r.below(3)
+            cuts = sorted(len(base) if r.chance(1, 2) else r.below(len(base) + 1) for _ in range(n - 1)) + [len(base)]
+            rel = gen.relevant_cfgs(kind)
+            for cut in cuts:
+                cfg = r.choice(rel) if r.chance(2, 3) else r.below(128)
+                calls.append((r.below(2) if r.chance(2, 3) else r.below(4), cfg, r.choice([0, 1, 2, 4, 8]), base[:cut]))
+            hs.append(("H", "grow.%d" % i, kind, r.choice([1, 2, 3, 4, 8]), calls))
+            continue
         for j in range(1 + r.below(4) + 1):
             k2 = kind if r.chance(3, 4) else "qp"[(i + 1) % 2]
             b = gen.GRAM[k2](r, lenient=r.below(2))
@@ -982,7 +1018,14 @@ def run_C18(ctx):
             continue
         if cid in res.model:
             ctx.validated += 1
-            if res.model[cid] != res.impl[cid]:
+            # a field left by an earlier call may alias the last buffer when the calls share one allocation
+            # (the growing-buffer histories): compare such fields by content, not by location
+            last = h[4][-1][3]
+
+            def bycontent(txt):
+                return re.sub(r"(\d+)\+(\d+)",
+                              lambda m: "x" + last[int(m.group(1)):int(m.group(1)) + int(m.group(2))].hex(), txt)
+            if bycontent(res.model[cid]) != bycontent(res.impl[cid]):
                 ctx.mismatch(h, res.impl[cid], res.model[cid])
         O = Obs(res.impl[cid])
         e, cf, uc, b = h[4][-1]
@@ -1036,7 +1079,7 @@ def run_C19(ctx):
 
 # ---------------------------------------------------------------- C20
 def run_C20(ctx):
-    if not need(ctx, ["default"]):
+    if not need(ctx, ["default", "nosimd"]):
         return
     sizes = [1024, 8192, 65536] if ctx.quick else [1024, 8192, 65536, 1 << 18, 1 << 20]
     cases = corpora.adversarial(ctx.seed, sizes) + api_main(ctx)[::(4 if ctx.quick else 1)]
@@ -1113,7 +1156,14 @@ def time_scaling(ctx):
             continue
         fams.setdefault(fam, {})[len(c[6])] = c
     cases = [c for d in fams.values() for c in d.values()]
-    res = execute("C20-time", cases, mode="time", want_model=False, use_cache=False)
+    # the runtime-detected backend hides the word-at-a-time scanners behind the SIMD ones (they only see the
+    # last < 32 bytes of a buffer): time the build with SIMD disabled too
+    for variant in ("default", "nosimd"):
+        _time_variant(ctx, variant, fams, cases)
+
+
+def _time_variant(ctx, variant, fams, cases):
+    res = execute("C20-time", cases, variant=variant, mode="time", want_model=False, use_cache=False)
     ctx.broken += res.errors
     t = {}
     for cid, raw in res.impl.items():
@@ -1131,9 +1181,10 @@ def time_scaling(ctx):
         ctx.evaluations += 2
         ratio = tb / max(ta, 1)
         size_ratio = sizes[1] / max(sizes[0], 1)
-        ctx.notes.append("time %s: %d B %.3f ms, %d B %.3f ms, ratio %.1f (size ratio %.1f)"
-                         % (fam, sizes[0], ta / 1e6, sizes[1], tb / 1e6, ratio, size_ratio))
+        ctx.notes.append("time[%s] %s: %d B %.3f ms, %d B %.3f ms, ratio %.1f (size ratio %.1f)"
+                         % (variant, fam, sizes[0], ta / 1e6, sizes[1], tb / 1e6, ratio, size_ratio))
         if tb >= 2_000_000 and ratio > 2.5 * size_ratio:
-            ctx.fail(b, "time grows super-linearly on the %s family: %.3f ms for %d bytes, %.3f ms for %d bytes "
-                     "(ratio %.1f for a size ratio of %.1f)" % (fam, ta / 1e6, sizes[0], tb / 1e6, sizes[1], ratio, size_ratio),
+            ctx.fail(b, "time grows super-linearly on the %s family (harness variant %s): %.3f ms for %d bytes, %.3f ms "
+                     "for %d bytes (ratio %.1f for a size ratio of %.1f)"
+                     % (fam, variant, ta / 1e6, sizes[0], tb / 1e6, sizes[1], ratio, size_ratio),
                      impl="ns=%d" % tb)
